@@ -89,6 +89,9 @@ def run(F, rep):
             m = re.fullmatch(r"(?:num::saturating_sub|Sub)\(Add\(1, (.+)\), k\)", fe)
             okS1 = bool(m) and "next(iter)" in fe
             why = "segment_start = %s" % fe
+            if not okS1:
+                # a case split written by hand: each branch is (pos + 1) - k, or 0 under a guard that implies pos + 1 <= k
+                okS1, why = _start_by_cases(f, ex, e, kparam)
         rep.ob("C10-S1", "%s: next segment starts k bases before the end of the previous one ((pos + 1) - k)" % name, okS1 and len(starts) == 1, detail=why,
                site="%s:%d" % (f.file, f.line_lo), key="C10-S1 | %s | overlap" % f.key)
         # in-loop segment data = contig[segment_start .. pos+1]
@@ -196,6 +199,42 @@ def _same_value(f, ex, a, b):
                 if vals == {repr(b)}:
                     return True
     return False
+
+
+def _start_by_cases(f, ex, e, kparam):
+    from mirutil import linear, lin_sub, cond_to_le0, implies_le0
+    vd = _value_defs(f, ex, e) if isinstance(e, tuple) and e[0] == "var" else None
+    if not vd:
+        return False, "segment_start = %s" % fmt(e)
+    pos = None
+    for v, bi in vd:
+        for x in walk(v):
+            if isinstance(x, tuple) and x[0] == "field" and "next(iter)" in fmt(x) and fmt(x).endswith(".0.0"):
+                pos = x
+    if pos is None:
+        for v, bi in vd:
+            for c in dominating_conds(f, bi, ex):
+                for x in walk(strip_tags(c[0])):
+                    if isinstance(x, tuple) and x[0] == "field" and "next(iter)" in fmt(x) and fmt(x).endswith(".0.0"):
+                        pos = x
+    if pos is None:
+        return False, "segment_start = %s (no scan position in it)" % fmt(e)
+    want = lin_sub(linear(("bin", "Add", ("const", 1), pos)), linear(kparam))       # pos + 1 - k
+    for v, bi in vd:
+        lv = {k2: c2 for k2, c2 in linear(strip_tags(v)).items() if c2}
+        if lv == {k2: c2 for k2, c2 in want.items() if c2}:
+            continue
+        if v == ("const", 0):
+            known = []
+            for c in dominating_conds(f, bi, ex):
+                tv = cond_bool(c[1], c[2])
+                if tv is not None:
+                    known += cond_to_le0(strip_tags(c[0]), tv)
+            if implies_le0(known, dict(want), unsigned=True):
+                continue
+            return False, "segment_start = 0 in a branch whose guard does not imply pos + 1 <= k"
+        return False, "segment_start = %s in one branch" % fmt(v)
+    return True, "case split: (pos + 1) - k, or 0 where pos + 1 <= k"
 
 
 def names_rev(f):
